@@ -60,6 +60,9 @@ structure PC (K : Type) where
   mu : K
   deriving Repr
 
+/-- the same (scatter point, detector) with another activity integral (another activity image) -/
+def PD.withEmis {K : Type} (a : PD K) (e : K) : PD K := { a with emis := e }
+
 section Formula
 variable {K : Type} [Add K] [Mul K] [Div K] [OfNat K 0] [OfNat K 1] [OfNat K 2] [OfNat K 3] [OfNat K 4]
   [LT K] [DecidableEq K] [DecidableLT K]
@@ -95,6 +98,11 @@ def actualScatterEstimate (pts : List (PC K × PD K × PD K)) (effNoScatterAB sc
 /-- exchange of the two detectors -/
 def swapPts (pts : List (PC K × PD K × PD K)) : List (PC K × PD K × PD K) :=
   pts.map fun p => (p.1, p.2.2, p.2.1)
+
+/-- the list of per-scatter-point ingredients for one detector pair, with the activity integrals `eA i`, `eB i`
+    of some activity image put in -/
+def ptsOf {ι : Type} (l : List ι) (c : ι → PC K) (a b : ι → PD K) (eA eB : ι → K) : List (PC K × PD K × PD K) :=
+  l.map fun i => (c i, (a i).withEmis (eA i), (b i).withEmis (eB i))
 
 /-- the summation loop of `ScatterSimulation::integral_between_2_points` (single_scatter_integrals.cxx:91):
     `lor` is the sorted output of `RayTraceVoxelsOnCartesianGrid` (voxel, intersection length),
@@ -356,7 +364,7 @@ def downsampleScannerCore (W : World) (newRings newDets : Int) (s : St) : St × 
 /-- `downsample_scanner` called by the user: the new template is what the user wants from now on -/
 def downsampleScanner (W : World) (newRings newDets : Int) (s : St) : St × Res :=
   let (s1, r) := downsampleScannerCore W newRings newDets s
-  ({ s1 with gTmpl := s1.tmpl }, r)
+  (if r = .ok then { s1 with gTmpl := s1.tmpl } else s1, r)
 
 /-- `downsample_density_image_for_scatter_points(zoom_xy, zoom_z, zoom_size_xy, zoom_size_z)` with the
     members as arguments, as `set_up` calls it (ScatterSimulation.cxx:527); explicit zooms only -/
@@ -385,6 +393,13 @@ def initialiseCache {σ : Type} (useCache : Bool) (rows cols : Nat) (c : Option 
     | some c => if c.rows = rows ∧ c.cols = cols then some c else some ⟨rows, cols, []⟩
     | none => some ⟨rows, cols, []⟩
 
+/-- the end of `ScatterSimulation::set_up` (ScatterSimulation.cxx:400-403): both caches initialised,
+    `_already_set_up = true` -/
+def finishSetUp (W : World) (s : St) (t : Tmpl) : St :=
+  { s with attCache := initialiseCache s.useCache (nspOf W s) t.totalDetectors s.attCache,
+           actCache := initialiseCache s.useCache (nspOf W s) t.totalDetectors s.actCache,
+           alreadySetUp := true }
+
 /-- `SingleScatterSimulation::set_up` + `ScatterSimulation::set_up` (SingleScatterSimulation.cxx:70,
     ScatterSimulation.cxx:300). The state is returned also when `error()` is thrown half-way. -/
 def setUp (W : World) (s0 : St) : St × Res :=
@@ -400,12 +415,7 @@ def setUp (W : World) (s0 : St) : St × Res :=
     if !W.zOk a then (s, .err) else
     match s.tmpl with
     | none => (s, .crash)
-    | some t =>
-      let rows := nspOf W s
-      let cols := t.totalDetectors
-      ({ s with attCache := initialiseCache s.useCache rows cols s.attCache,
-                actCache := initialiseCache s.useCache rows cols s.actCache,
-                alreadySetUp := true }, .ok)
+    | some t => (finishSetUp W s t, .ok)
   | _, _, _, _ => (s, .err)
 
 /-- where every quantity that enters the output of `process_data` came from -/
